@@ -176,7 +176,10 @@ fn main() {
             let mut rb = ReadBuf::new(&mut storage);
             rb.set_filled(filled);
             let before = rb.filled().len();
-            let _ = Pin::new(&mut cs).poll_read(&mut cx, &mut rb);
+            let res = Pin::new(&mut cs).poll_read(&mut cx, &mut rb);
+            // the AsyncRead contract: only a read that returns Ready(Ok) has delivered anything - a caller that builds a
+            // fresh ReadBuf for every poll (AsyncReadExt::read) never sees what a Pending / failed poll left behind
+            if !matches!(res, Poll::Ready(Ok(()))) { continue; }
             let after = rb.filled().len();
             delivered.extend_from_slice(&rb.filled()[before..after]);
             filled = after;
